@@ -215,6 +215,10 @@ class Server(object):
             else:
                 shutil.copyfile(os.path.join(self.root, 'work', body), dst)
             return {'status': 'fs-event', 'body': None}
+        if not self.alive():
+            # the server process is gone: nothing of it can answer.  Connecting anyway would be wrong, not only pointless: the freed port may
+            # already belong to a server that another worker started on port 0, and its answer would be taken for this server's
+            return {'status': 'unreachable', 'body': None}
         try:
             c = http.client.HTTPConnection('127.0.0.1', self.port, timeout=90)
             data = body.encode('utf8') if isinstance(body, str) else body
